@@ -429,7 +429,7 @@ def build(cls, kw, post=None):
 
 def post_of(case):
   """The post-construction part of a case, or None."""
-  p = {k: case[k] for k in ("qn_update", "mutate") if case.get(k)}
+  p = {k: case[k] for k in ("qn_update", "mutate", "flip") if case.get(k)}
   return p or None
 
 
